@@ -102,13 +102,22 @@ def classes():
             "Duplicate": Duplicate, "VaryKeys": VaryKeys}
 
 
+class InjectedConsumerFault(Exception):
+    pass
+
+
 class Session:
     """feeds raw documents one at a time into a dispatcher and turns what it re-emits into trace steps"""
 
-    def __init__(self, ld):
+    def __init__(self, ld, fail_at=0):
         self.ld = ld
         self.emitted = []
         ld.subscribe(lambda name, doc: self.emitted.append((name, doc)))
+        # a second subscriber (registered after the recording one) that fails on the fail_at-th re-emitted event: what the
+        # recording subscriber sees must stay a valid run (the RunEngine ignores / logs consumer exceptions)
+        self.fail_at, self._nev = fail_at, 0
+        if fail_at:
+            ld.subscribe(self._failing)
         self.steps = []
         self.raw_desc = {}      # raw descriptor uid -> name
         self.out_desc = {}      # emitted descriptor uid -> name   (this run only)
@@ -116,9 +125,18 @@ class Session:
         self.idents = {}        # (raw uid, data keys, id_args) -> d   (per run)
         self.problems = []
 
+    def _failing(self, name, doc):
+        if name == "event":
+            self._nev += 1
+            if self._nev == self.fail_at:
+                raise InjectedConsumerFault(f"consumer fails on re-emitted event #{self._nev}")
+
     def feed(self, name, doc):
         n0, c0 = len(self.emitted), len(self.ld.calls)
-        self.ld(name, doc)
+        try:
+            self.ld(name, doc)
+        except InjectedConsumerFault:
+            pass
         new, calls = self.emitted[n0:], self.ld.calls[c0:]
         if name == "start":
             self.out_desc, self.idents = {}, {}
@@ -182,10 +200,10 @@ class RawRun:
         return self.b.compose_stop()
 
 
-def run_script(cls_name, ops, K):
+def run_script(cls_name, ops, K, fail_at=0):
     """ops: list of ("start",) | ("proc", key, name, d) | ("stop",) -> trace steps observed on the real class"""
     ld = K[cls_name]()
-    s = Session(ld)
+    s = Session(ld, fail_at=fail_at)
     raw = None
     for op in ops:
         if op[0] == "start":
@@ -331,7 +349,7 @@ def traces_from_re(ctx, rng, K, n):
     for _ in range(n):
         cls = rng.choice(sorted(set(K) - {"Scripted"}))
         ld = K[cls]()
-        s = Session(ld)
+        s = Session(ld, fail_at=rng.choice([0, 0, 1, 2, 3, 5]))
         tok = RE.subscribe(lambda name, doc, s=s: s.feed(name, doc) if name in ("start", "descriptor", "event", "stop") else None)
         names = []
         try:
@@ -365,7 +383,7 @@ def traces_synthetic(ctx, rng, K, n):
                 ops.append(("proc", rng.choice(["primary", nm, "avg"]), nm, cur[nm]))
             ops.append(("stop",))
         try:
-            s = run_script(cls, ops, K)
+            s = run_script(cls, ops, K, fail_at=rng.choice([0, 0, 1, 2, 4, 7]))
         except Exception as ex:  # noqa
             ctx.violation(f"synthetic-exc:{cls}:{type(ex).__name__}", f"{cls} raised {ex!r} on {ops}", {"class": cls, "ops": ops})
             continue
